@@ -110,6 +110,32 @@ def step (s : St) (kind : String) (args impl : List String) : Option (St × Step
     let m := runActs s.m (updateSeq 0 h id a)
     let mon := { s.mon with anns := ((h, id), ((⟨id, ip, port, false, c⟩ : Info), s.mon.now)) :: s.mon.anns }
     ok { s with m := m, mon := mon } br
+  | ["race2", hat, pat, ipat, portat, cat, hbt, pbt, ipbt, portbt, cbt, dt] => do
+    -- two announcements A and B with the clock advancing by d between A's clock read and B's:
+    -- `a-first`: A was applied (at its clock value) before B could start; `b-first`: B overtook A
+    let ha ← idx? 'h' hat
+    let pa ← idx? 'p' pat
+    let ipa ← ipIdx? ipat
+    let porta ← portat.toNat?
+    let ca ← bool? cat
+    let hb ← idx? 'h' hbt
+    let pb ← idx? 'p' pbt
+    let ipb ← ipIdx? ipbt
+    let portb ← portbt.toNat?
+    let cb ← bool? cbt
+    let d ← dt.toNat?
+    let updA (st : St) : St :=
+      { st with m := runActs st.m (updateSeq 0 ha pa ⟨ipa, porta, ca⟩),
+                mon := { st.mon with anns := ((ha, pa), ((⟨pa, ipa, porta, false, ca⟩ : Info), st.mon.now)) :: st.mon.anns } }
+    let updB (st : St) : St :=
+      { st with m := runActs st.m (updateSeq 0 hb pb ⟨ipb, portb, cb⟩),
+                mon := { st.mon with anns := ((hb, pb), ((⟨pb, ipb, portb, false, cb⟩ : Info), st.mon.now)) :: st.mon.anns } }
+    let adv (st : St) : St :=
+      { st with m := KrakenModel.PeerStore.step st.m (.adv d), mon := { st.mon with now := st.mon.now + d } }
+    if inGap then none else
+    match impl with
+    | ["b-first"] => some (updA (updB (adv s)), { obs := ["b-first"], branch := if ha = hb then "race2.b-first.same-group" else "race2.b-first" })
+    | _ => some (updB (adv (updA s)), { obs := ["a-first"], branch := if ha = hb then "race2.a-first.same-group" else "race2.a-first" })
   | ["get", ht, nt] => do
     let h ← idx? 'h' ht
     let n ← nt.toInt?
@@ -194,8 +220,12 @@ def machine : Machine := { σ := St, name := "ps", init := init, step := step }
 
 /-- concurrent stress runs: the harness evaluates the predicates itself (propfail records); the
 summary records are only counted -/
-def cstep (s : Unit) (kind : String) (_args impl : List String) : Option (Unit × StepOut) :=
-  if kind ≠ "op" then none else some (s, { obs := impl, branch := "stress" })
+def cstep (s : Unit) (kind : String) (args impl : List String) : Option (Unit × StepOut) :=
+  if kind ≠ "op" then none else
+  let br := match args with
+    | "race" :: rest => if rest.contains "group-replaced=1" then "race.retry-taken" else "race.announcer-first"
+    | _ => "stress"
+  some (s, { obs := impl, branch := br })
 
 def cmachine : Machine := { σ := Unit, name := "psc", init := fun _ => some (), step := cstep }
 
